@@ -21,6 +21,8 @@ class EvalSite(object):
         self.mode = None          # 'direct' | 'list'
         self.unpacks = []         # [(cfg node, [names by position])]
         self.listvar = None
+        self.extra_exprs = []     # values captured with a parked result: L.append(evaluate(..) + (self.nx,))
+        self.extra_names = {}     # unpack node -> names that receive them
         self.x_expr = call.args[0] if call.args else None
 
 
@@ -49,17 +51,28 @@ def eval_sites(eng):
         if isinstance(parent, ast.Assign) and parent.value is ci.node and isinstance(parent.targets[0], (ast.Tuple, ast.List)):
             es.mode = "direct"
             es.unpacks.append((cfg.cfg_node(parent), assigned_names(parent.targets[0])))
-        elif isinstance(parent, ast.Call) and isinstance(parent.func, ast.Attribute) and parent.func.attr == "append" \
-                and isinstance(parent.func.value, ast.Name):
-            es.mode = "list"
-            es.listvar = parent.func.value.id
-            for n, d in cfg.g.nodes(data=True):
-                st = d["ast"]
-                if d["kind"] == "stmt" and isinstance(st, ast.Assign) and isinstance(st.targets[0], (ast.Tuple, ast.List)) \
-                        and isinstance(st.value, ast.Subscript) and isinstance(st.value.value, ast.Name) and st.value.value.id == es.listvar:
-                    es.unpacks.append((n, assigned_names(st.targets[0])))
         else:
-            es.mode = "other"
+            # parked for later: L.append(evaluate(..))  or, with values captured in the same statement,  L.append(evaluate(..) + (self.nx, ...))
+            app, extra = parent, []
+            if isinstance(parent, ast.BinOp) and isinstance(parent.op, ast.Add) and parent.left is ci.node and isinstance(parent.right, ast.Tuple):
+                extra = list(parent.right.elts)
+                app = eng.prog.parent.get(id(parent))
+            if isinstance(app, ast.Call) and isinstance(app.func, ast.Attribute) and app.func.attr == "append" and isinstance(app.func.value, ast.Name):
+                es.mode = "list"
+                es.listvar = app.func.value.id
+                es.extra_exprs = extra
+                npos = len(result_positions(eng))
+                for n, d in cfg.g.nodes(data=True):
+                    st = d["ast"]
+                    if d["kind"] == "stmt" and isinstance(st, ast.Assign) and isinstance(st.targets[0], (ast.Tuple, ast.List)) \
+                            and isinstance(st.value, ast.Subscript) and isinstance(st.value.value, ast.Name) and st.value.value.id == es.listvar:
+                        names = assigned_names(st.targets[0])
+                        if extra and len(names) == npos + len(extra):
+                            es.extra_names[n] = names[npos:]        # the captured values, by position
+                            names = names[:npos]
+                        es.unpacks.append((n, names))
+            else:
+                es.mode = "other"
         out.append(es)
     return out
 
